@@ -1074,12 +1074,12 @@ def witnesses():
 def main(tier, seed):
     t0 = time.time()
     proof = framework.proof_stage(PID, MODULE, THEOREMS, tier)
-    nshards, per = (16, 500) if tier == "quick" else (64, 2500)
+    nshards, per = (16, 1500) if tier == "quick" else (64, 25000)
     run = framework.run_shards("c16", "run_shard", PID, seed, nshards, per, tier)
     run["findings"] = witnesses() + run["findings"]
 
     def search_more():
-        r = framework.run_shards("c16", "run_shard", PID, seed + 7919, 32, 1500, tier)
+        r = framework.run_shards("c16", "run_shard", PID, seed + 7919, 32, 3000, tier)
         return r["findings"]
     rule = ("cases: decorator(...)(identity)(x) for discrete / integers / rounded / precision / impose_bounds (tuple, list of "
             "intervals, dict, dict+index) / bounded (clip x nearest, draws recorded) / unique / impose_unique / sorting / monotonic "
